@@ -709,6 +709,20 @@ fn exact(f: Fuzzer<a>) -> Fuzzer<a> {
   }
 }
 
+// the fuzzer itself crashes on some draws
+fn crashy(limit: Int) -> Fuzzer<Int> {
+  int()
+    |> map(
+         fn(n) {
+           if n > limit {
+             fail
+           } else {
+             n
+           }
+         },
+       )
+}
+
 fn label(str: String) -> Void {
   str
     |> builtin.append_string(@"\0", _)
@@ -761,6 +775,8 @@ const E2E_CASES: &[(&str, &str, &str)] = &[
     ("const_pass", "n: Int via constant(42)", "n == 42"),
     ("exact_pair", "t: (Int, Int) via exact(pair(int(), int()))", "t.1st + t.2nd <= 300"),
     ("exact_dep", "xs: List<Int> via exact(dep_list())", "sum(xs) < 200"),
+    ("fuzzer_crash", "n: Int via crashy(240)", "n < 100"),
+    ("fuzzer_crash_pass", "n: Int via crashy(250)", "n >= 0"),
     ("labels", "b: Bool via bool()", "{\n    if b { label(@\"head\") } else { label(@\"tail\") }\n    True\n  }"),
     ("labels_fail", "n: Int via int()", "{\n    if n < 128 { label(@\"low\") } else { label(@\"high\") }\n    n < 240\n  }"),
 ];
@@ -854,6 +870,8 @@ struct Reference {
     /// 1-based iteration of the first kept sample, its choices and value
     first: Option<(usize, Vec<u8>, PlutusData)>,
     labels: BTreeMap<String, usize>,
+    /// 1-based iteration at which the fuzzer itself crashed (before any kept sample)
+    crashed_at: Option<usize>,
 }
 
 /// independent walk over the same seeded samples with the public pieces
@@ -861,12 +879,17 @@ struct Reference {
 fn reference(prop: &PropertyTest, seed: u32, n: usize, pv: &PlutusVersion) -> Reference {
     let lang: pallas_primitives::conway::Language = pv.into();
     let mut prng = Prng::from_seed(seed);
-    let mut out = Reference { fails: vec![], first: None, labels: BTreeMap::new() };
+    let mut out = Reference { fails: vec![], first: None, labels: BTreeMap::new(), crashed_at: None };
     for it in 1..=n {
-        let (next, value) = prng
-            .sample(&prop.fuzzer.program)
-            .expect("fuzzer crashed")
-            .expect("seeded fuzzer returned None");
+        let (next, value) = match prng.sample(&prop.fuzzer.program) {
+            Ok(x) => x.expect("seeded fuzzer returned None"),
+            Err(_) => {
+                if out.first.is_none() {
+                    out.crashed_at = Some(it);
+                }
+                break;
+            }
+        };
         let result = prop.eval(&value, pv);
         let is_failure = result.failed(true, &lang);
         if out.first.is_none() {
@@ -942,6 +965,14 @@ pub fn e2e(ctx: &Ctx) -> Report {
                     let reference = reference(&prop, seed, n, &pv);
                     // verdict
                     let verdict = TestResult::PropertyTestResult::<(), _>(r1.clone()).is_success();
+                    if let Some(at) = reference.crashed_at {
+                        // the fuzzer crashed before any sample was kept: an error, never a success
+                        if verdict || r1.counterexample.is_ok() || r1.iterations != at {
+                            problems.push(("fuzzer crash not reported as a failure at the crashing iteration".into(),
+                                json!({"is_success": verdict, "iterations": r1.iterations, "crashed_at": at})));
+                        }
+                        return (problems, (false, usize::MAX, 0usize), verdict);
+                    }
                     let spec = verdict_spec(&otf, &reference.fails);
                     if verdict != spec {
                         problems.push(("is_success differs from the documented meaning of the expectation".into(), json!({"is_success": verdict, "spec": spec, "fails": format!("{:?}", reference.fails)})));
@@ -1003,7 +1034,7 @@ pub fn e2e(ctx: &Ctx) -> Report {
                         rep.fail(&format!("{key}:panic"), "PropertyTest::run (or the replay of its report) panicked", json!({"case": case, "seed": seed, "source": src}), json!({"panic": msg}));
                     }
                     Ok((problems, (has_ce, first_len, final_len), verdict)) => {
-                        rep.count(if has_ce { "counterexample" } else { "no-counterexample" });
+                        rep.count(if has_ce { "counterexample" } else if first_len == usize::MAX { "fuzzer-crash" } else { "no-counterexample" });
                         rep.count(if verdict { "verdict:success" } else { "verdict:failure" });
                         if has_ce {
                             rep.count(if final_len < first_len { "shrunk:shorter" } else { "shrunk:same-length" });
